@@ -38,7 +38,10 @@ def expand(cspec):
         return bytes(size)
     if alpha == 'ff':
         return b'\xff' * size
-    if alpha == 'ascii':
+    if alpha == 'ids':
+        # content that looks like sync protocol records: ids (FAIL, DONE, ...) and small little-endian lengths
+        base = b''.join(r.choices([b'FAIL', b'DONE', b'DATA', b'DENT', b'OKAY', b'STAT', b'QUIT', b'RECV', b'\x04\x00\x00\x00', b'\x00\x00\x00\x00', b'\x10\x00\x00\x00'], k=min(size // 4 + 1, 4096)))
+    elif alpha == 'ascii':
         base = bytes(r.choices(b'abcdefghijklmnopqrstuvwxyz0123456789 \n', k=min(size, 4096)))
     elif alpha == 'utf8':
         base = ''.join(r.choices(_UTF8_POOL, k=min(size, 2048))).encode('utf8')
@@ -430,6 +433,11 @@ class Device(object):
             self.sess['pubkey'] = data
             self.sess['pubkey_time'] = now
             pol = a.get('pubkey', 'accept')
+            if pol.startswith('rechallenge'):
+                # adbd asks again while the user has not decided yet: a fresh AUTH(TOKEN) follows the offered public key
+                self._challenge(now)
+                self.probe('auth_rechallenge_after_pubkey')
+                pol = 'accept' if pol == 'rechallenge_accept' else 'silent'
             if pol == 'accept':
                 self._send_cnxn(now, lat=a.get('think_s', 0.0))
             elif pol == 'late':
@@ -457,7 +465,7 @@ class Device(object):
         raise AssertionError('no remote id')
 
     def _q(self, s, pkt, now, lat=None):
-        base = max(s.last_ready, now)
+        base = max(s.last_ready, now, getattr(self, 'busy_until', 0.0))
         pkt.ready = base + (self._latency() if lat is None else lat)
         s.last_ready = pkt.ready
         pkt.sid = s.sid
@@ -501,7 +509,16 @@ class Device(object):
             return
         self.streams[rid] = s
         s.svc = svc
-        self._q(s, Pkt(W.A_OKAY, rid, local, kind='open_okay'), now)
+        od = self.spec.get('open_delay')
+        self.opens_seen = getattr(self, 'opens_seen', 0) + 1
+        if od and od.get('nth') == self.opens_seen - 1:
+            # a busy device: this OPEN is answered late (after the host may have given up), not never; whatever else it is asked
+            # meanwhile is answered after that, too
+            self.busy_until = now + od['delay']
+            self._q(s, Pkt(W.A_OKAY, rid, local, kind='open_okay'), now)
+            self.probe('late_open_okay')
+        else:
+            self._q(s, Pkt(W.A_OKAY, rid, local, kind='open_okay'), now)
         svc.start(now)
 
     def _find(self, local, remote, what):
